@@ -270,11 +270,12 @@ ShutdownCtx(g) ==
   /\ IsCancelled(Top(g).o.ctx)
   /\ SetTop(g, [Top(g) EXCEPT !.pc = "ret", !.res = "err"])
   /\ UNCHANGED <<cfg, reg, attr, fired, seqHolder, cancelled, closed, pubs, npub, gh>>
-\* (E) the store's Close is called by Shutdown
-StoreClose(g) ==
+\* (E) the store's Close is called by Shutdown; ok = it returned nil (a failing Close is what Shutdown returns)
+StoreClose(g, ok) ==
   /\ g \in Gs /\ stack[g] # <<>> /\ Top(g).k = "op" /\ Top(g).pc = "close"
+  /\ ok \in BOOLEAN
   /\ closed' = closed + 1
-  /\ SetTop(g, [Top(g) EXCEPT !.pc = "ret"])
+  /\ SetTop(g, [Top(g) EXCEPT !.pc = "ret", !.res = IF ok THEN "nil" ELSE "err"])
   /\ gh' = [gh EXCEPT !.bad = @ \cup Flag(gh.waitNeeds[g] \cap Pending # {}, "closedEarly")]
   /\ UNCHANGED <<cfg, reg, attr, fired, seqHolder, cancelled, pubs, npub>>
 
